@@ -23,7 +23,7 @@ META = {
 }
 
 NEG = [('tie_first', 'Inv_C03_Nearest'), ('circle_noN', 'Inv_C03_Nearest'), ('idx_line', 'Inv_C03_Nearest'),
-       ('falsy_index', 'Inv_C03_Exact'), ('getitem_noexpand', 'Inv_C03_Nearest'),
+       ('falsy_index', 'Inv_C03_Exact'), ('getitem_noexpand', 'Inv_C03_Nearest'), ('eager_expand_gated', 'Inv_C03_Nearest'),
        ('stale_ext', 'Inv_C03_Nearest')]
 NEG_INVS = ['Inv_C03_Nearest', 'Inv_C03_NoTieAssigned', 'Inv_C03_Exact', 'Inv_C03_Lookup', 'Inv_C03_Parse']
 
@@ -31,7 +31,7 @@ NEG_INVS = ['Inv_C03_Nearest', 'Inv_C03_NoTieAssigned', 'Inv_C03_Exact', 'Inv_C0
 def key_fn(ev, clause):
     c = clause.split(' ')[0]
     if ev['ev'] == 'small':
-        return '%s|small|k=%d|%s|%s|%s|n=%d' % (c, ev['k'], ev['via'], ('lazy_' + ev.get('touch', 'lookup')) if ev['lazy'] else 'eager', '+'.join(ev['fmt']),
+        return '%s|small|k=%d|%s|%s|%s|n=%d' % (c, ev['k'], ev['via'], ('lazy_' + ev.get('touch', 'lookup')) if ev['lazy'] else 'eager_lazyLoad=' + ev.get('lazyarg', 'none'), '+'.join(ev['fmt']),
                                                 len(ev['wl']))
     return '%s|shipped|%s|k=%s|first_touch=%s' % (c, ev.get('alias'), ev.get('k'), ev.get('touch'))
 
@@ -83,7 +83,7 @@ def run(tier):
     vlib.sany('Trace_Barcode')
     acts = ['Construct', 'Detect', 'ParseLine', 'CircleStep', 'Resolve', 'NextFile', 'Lookup', 'Answer', 'GetItem']
     # negative controls in parallel with the design run (small models, 2 workers each)
-    with ThreadPoolExecutor(max_workers=7) as ex:
+    with ThreadPoolExecutor(max_workers=8) as ex:
         negs = [ex.submit(vlib.mc, 'Barcode', 'MC_Barcode_%s.cfg' % v, expect='fail', expect_inv=NEG_INVS, workers=2, coverage=False)
                 for v, _ in NEG]
         c.mc_pass('Barcode', 'MC_Barcode_design_q.cfg', actions_required=acts, workers=8 if quick else None, timeout=600)
@@ -97,7 +97,7 @@ def run(tier):
 
     # spec -> code: every initial state of the model is a scenario for the real parser
     scn = []
-    for g in (['q', 'qg', '2f'] if quick else ['t', 't3', 'qg', '2f']):
+    for g in (['q', 'qo', 'qg', '2f'] if quick else ['t', 't3', 'qo', 'qg', '2f']):
         scn += vlib.scenarios('Barcode', 'MC_Barcode_gen_%s.cfg' % g, timeout=900)['scenarios']
     if not scn:
         raise vlib.MachineryError('no scenarios generated')
